@@ -287,7 +287,14 @@ func (env *SpecEnv) eval(e Expr) (sval, error) {
 			var valTyp types.Type
 			if !ok && env.pkg != nil {
 				// a named (struct) type of the package, by value: `forall k sessionKey`
-				if obj := env.pkg.Pkg.Scope().Lookup(qv.Type); obj != nil {
+				scope, tname := env.pkg.Pkg.Scope(), qv.Type
+				if i := strings.Index(tname, "."); i > 0 {
+					// pkg.Type of an imported package
+					if ip := env.importedPkg(tname[:i]); ip != nil {
+						scope, tname = ip.Pkg.Scope(), tname[i+1:]
+					}
+				}
+				if obj := scope.Lookup(tname); obj != nil {
 					if tn, isTN := obj.(*types.TypeName); isTN {
 						valTyp = tn.Type()
 						srt, ok = ctx.sortOf(valTyp), true
